@@ -9,7 +9,7 @@ terminal state. The harness (vdocs) renders every case into the concrete bytes o
 extractor on it and returns the reported (name, version) pairs; they are compared as bags with the
 specification's expectation. The renderers are first validated against the repository's own fixtures.
 """
-import json, os, sys
+import json, os, shutil, sys, tempfile
 sys.path.insert(0, os.path.dirname(os.path.abspath(__file__)))
 import vf, args
 
@@ -107,19 +107,33 @@ def weight(rec):
     return (len(c["records"]), sum(1 for k, v in DEFAULT_LAYOUT.items() if c["layout"][k] != v), len(json.dumps(rec)))
 
 
-def compare(ck, cases, results, origin):
-    """compares observed and expected bags; returns number compared"""
-    if len(results) != len(cases):
-        raise vf.NotAVerdict("harness returned %d of %d cases" % (len(results), len(cases)))
+TALLY = {"per_fmt": {}, "nontrivial": 0}
+
+
+def compare(ck, ncases, results, origin, cases=None):
+    """compares observed and expected bags. results come from the harness in brief mode: conforming cases are
+    {"i", "ok", "fmt", "nt"}; every other result carries the case, what was expected and what was observed."""
+    if len(results) != ncases:
+        raise vf.NotAVerdict("harness returned %d of %d cases" % (len(results), ncases))
     unlisted = UNLISTED
     nviol = 0
     for o in results:
-        c = cases[o["i"]]
+        if o.get("ok") is True:
+            TALLY["per_fmt"][o["fmt"]] = TALLY["per_fmt"].get(o["fmt"], 0) + 1
+            TALLY["nontrivial"] += 1 if o["nt"] else 0
+            continue
+        c = o["case"] if "case" in o else cases[o["i"]]
+        TALLY["per_fmt"][c["fmt"]] = TALLY["per_fmt"].get(c["fmt"], 0) + 1
+        TALLY["nontrivial"] += 1 if nontrivial(c) else 0
         want, obs = o["want"], o["obs"]
         err, panic = o.get("err", ""), o.get("panic", "")
+        via = "Extract"
         if sorted(map(tuple, want)) == sorted(map(tuple, obs)) and not err and not panic and o.get("required", True):
-            continue
-        rec = {"case": c, "want": want, "observed": obs, "err": err, "panic": panic[:1500], "origin": origin}
+            if "scan_obs" not in o or (sorted(map(tuple, want)) == sorted(map(tuple, o["scan_obs"])) and not o.get("scan_err") and not o.get("scan_panic")):
+                continue
+            # Extract alone is right, the whole filesystem scan of the same tree is not
+            via, obs, err, panic = "filesystem.Run", o["scan_obs"], o.get("scan_err", ""), o.get("scan_panic", "")
+        rec = {"case": c, "want": want, "observed": obs, "err": err, "panic": panic[:1500], "origin": origin, "via": via}
         fid = classify(c, want, obs, err, panic)
         if fid:
             if not ck.known_finding(fid, FINDINGS[fid]):
@@ -144,9 +158,9 @@ def compare(ck, cases, results, origin):
                 what.append("invented %s" % sorted(os_ - ws))
             if not (ws - os_) and not (os_ - ws) and len(obs) != len(want):
                 what.append("duplicated: reported %s" % obs)
-            ck.violation("%s: %d record(s) %s layout %s: %s" % (c["fmt"], len(c["records"]), json.dumps(c["records"]),
+            ck.violation("%s via %s: %d record(s) %s layout %s: %s" % (c["fmt"], via, len(c["records"]), json.dumps(c["records"]),
                                                               json.dumps(c["layout"], sort_keys=True), "; ".join(what)), rec)
-    return len(cases)
+    return ncases
 
 
 def report_unlisted(ck):
@@ -161,12 +175,12 @@ def main():
     if a.replay:
         rec = json.load(open(a.replay))["replay"]
         cases = [rec["case"]]
-        res = vf.run_harness("vdocs", "docs", cases, args=["-a", "doc=1"])
+        res = vf.run_harness("vdocs", "docs", cases, args=["-a", "doc=1", "-a", "scan=1"])
         for r in res:
             for p, d in sorted((r.get("doc") or {}).items()):
                 vf.log("---- %s ----\n%s" % (p, d.replace("\r", "<CR>")))
             vf.log("want     %s\nobserved %s %s %s" % (r["want"], r["obs"], r.get("err", ""), r.get("panic", "")[:400]))
-        compare(ck, cases, res, "replay")
+        compare(ck, 1, res, rec.get("origin", "replay"), cases)
         report_unlisted(ck)
         ck.cov["traces_validated_against_impl"] = 1
         return ck.finish()
@@ -182,19 +196,39 @@ def main():
     # 2. the renderers reproduce the repository's fixtures
     selftest_failed = fixture_selftest(ck)
 
-    # 3. exhaustive enumeration + replay
-    cfg = "PackageDoc-thorough.cfg" if ck.thorough() else "PackageDoc-quick.cfg"
-    r = vf.require_ok(vf.tlc("PackageDoc", cfg, timeout=1500, heap="8g"), cfg)
-    ck.add_tlc(cfg, r, " ".join(l.strip() for l in open(os.path.join(vf.SPEC, "cfg", cfg)).read().split("SPECIFICATION")[0].splitlines()
-                                if not l.startswith("\\*")))
-    cases = r.cases
-    per_fmt = {}
-    for c in cases:
-        per_fmt[c["fmt"]] = per_fmt.get(c["fmt"], 0) + 1
-    if sorted(per_fmt) != sorted(FORMATS) or min(per_fmt.values()) < 100:
-        raise vf.NotAVerdict("TLC emitted cases for %s only" % per_fmt)
-    res = vf.run_harness("vdocs", "docs", cases, timeout=3000)
-    n = compare(ck, cases, res, cfg)
+    # 3. exhaustive enumeration + replay (cases stream through a file: the thorough tier has millions)
+    work = tempfile.mkdtemp(prefix="c03-")
+    try:
+        cfg = "PackageDoc-thorough.cfg" if ck.thorough() else "PackageDoc-quick.cfg"
+        cf = os.path.join(work, "cases.ndjson")
+        r = vf.require_ok(vf.tlc("PackageDoc", cfg, timeout=2400, heap="8g", case_file=cf), cfg)
+        ck.add_tlc(cfg, r, " ".join(l.strip() for l in open(os.path.join(vf.SPEC, "cfg", cfg)).read().split("SPECIFICATION")[0].splitlines()
+                                    if not l.startswith("\\*")))
+        ncases = len(r.cases)
+        res = vf.run_harness("vdocs", "docs", infile=cf, args=["-a", "scan=1", "-a", "brief=1"], timeout=5400)
+        n = compare(ck, ncases, res, cfg)
+        del res
+        per_fmt = dict(TALLY["per_fmt"])
+        if sorted(per_fmt) != sorted(FORMATS) or min(per_fmt.values()) < 100:
+            raise vf.NotAVerdict("TLC emitted cases for %s only" % per_fmt)
+        # samples: a few actual non-trivial cases, chosen by the seed
+        import random
+        rnd = random.Random(ck.seed)
+        picks = set(rnd.sample(range(ncases), min(ncases, 400)))
+        cand = []
+        with open(cf) as f:
+            for i, line in enumerate(f):
+                if i in picks:
+                    c = json.loads(line)
+                    if nontrivial(c):
+                        cand.append(c)
+        seen_f = set()
+        for c in cand:
+            if c["fmt"] not in seen_f and len(seen_f) < 5:
+                seen_f.add(c["fmt"])
+                ck.sample(c)
+    finally:
+        shutil.rmtree(work, ignore_errors=True)
 
     # 4. seeded random documents beyond the exhaustive bounds (TLC simulation of the same spec)
     sim = vf.require_ok(vf.tlc("PackageDoc", "PackageDoc-sim.cfg", simulate="num=%d" % (20000 if ck.thorough() else 4000), depth=12,
@@ -205,8 +239,8 @@ def main():
         if k not in seen:
             seen.add(k)
             simcases.append(c)
-    simres = vf.run_harness("vdocs", "docs", simcases, timeout=3000)
-    n2 = compare(ck, simcases, simres, "PackageDoc-sim.cfg seed %d" % ck.seed)
+    simres = vf.run_harness("vdocs", "docs", simcases, args=["-a", "scan=1", "-a", "brief=1"], timeout=3000)
+    n2 = compare(ck, len(simcases), simres, "PackageDoc-sim.cfg seed %d" % ck.seed)
     ck.cov["cfgs"].append({"cfg": "PackageDoc-sim.cfg", "mode": "simulate", "seed": ck.seed, "cases_emitted": len(sim.cases),
                            "distinct_cases": len(simcases), "wall_s": round(sim.wall, 1)})
 
@@ -216,7 +250,7 @@ def main():
         # either a renderer or the extractor mishandles something only the fixtures contain - not a verdict
         raise vf.NotAVerdict("renderer self-test failed without any replay violation: " + "; ".join(selftest_failed[:3]))
     ck.count(n + n2)
-    ck.cov["distinct_nontrivial"] = sum(1 for c in cases if nontrivial(c)) + sum(1 for c in simcases if nontrivial(c))
+    ck.cov["distinct_nontrivial"] = TALLY["nontrivial"]
     ck.cov["traces_validated_against_impl"] = n + n2
     ck.cov["cases_replayed_exhaustive"] = n
     ck.cov["cases_replayed_simulated"] = n2
@@ -225,12 +259,9 @@ def main():
     ck.cov["rule"] = ("every terminal state of PackageDoc.tla under the cfg constants: every sequence of 0..MaxRecs distinct records over "
                       "NIds (name class, version class) ids (every order; every installed-flag assignment for dpkg) x every layout the "
                       "format's capability row permits (eol, end-of-file policy, extra blank lines, comments, 3 levels of unrelated "
-                      "fields/sections, 3 section policies, format variants), all replayed; plus seeded TLC simulation of larger documents. "
+                      "fields/sections, 4 section policies, format variants; quick tier without two layout products, see Reduce), all replayed "
+                      "through Extract and through a whole filesystem.Run; plus seeded TLC simulation of larger documents. "
                       "non-trivial = at least 2 records and a non-default layout")
-    import random
-    rnd = random.Random(ck.seed)
-    for f in rnd.sample(FORMATS, 4):
-        ck.sample(rnd.choice([c for c in cases if c["fmt"] == f and nontrivial(c)]))
     ck.cov["not_explored"] += [
         "documents with more than MaxRecs records exhaustively (larger ones only by seeded simulation, up to 6 records)",
         "one concrete string per name/version class (6 names x 5 versions per ecosystem); other legal spellings are not enumerated",
@@ -238,7 +269,7 @@ def main():
         "dpkg status.d layout, opkg status path, apk v3 database, go.mod replace directives that hit a required module, go < 1.17 (go.sum merge), "
         "package-lock aliases/git/file dependencies, Pipfile.lock VCS entries, packages.lock.json project references",
         "tabs/trailing spaces inside records, UTF-8 BOM, very long lines, files larger than a few KiB",
-        "binding through a whole Scan (FileRequired is checked on the production path, Extract is called directly)"]
+        "the whole-scan binding runs filesystem.Run with only the format's own extractor enabled (interaction with other extractors is C01/C08's business)"]
     ck.assumptions += [
         "the oracle is the generator: expect = the (name, version) of every record the document marks installed (PackageDoc.tla: Expect), never the code's output",
         "CRLF is generated only for formats whose own tools accept it (not dpkg, not apk); a missing final newline is not generated for dpkg (dpkg rejects it) nor apk",
